@@ -214,3 +214,417 @@ def i_unsupported(msg, node):
 
 
 si.apply = _screen_init_apply
+
+
+# ====================================================================================================
+# id encoders (pandas): ASSUMED contracts (C01 tries to discharge them; until then they are trusted and
+# conformance-tested natively).  Stated from the property (faithful, dense encoding), not from the code.
+# ====================================================================================================
+from pyvc.lib.np_setops import str_lt, str_order_axioms  # noqa
+from pyvc.spec import Forall  # noqa
+from pyvc.values import to_z3  # noqa
+
+E1 = "batchie.data.encode_1d_array_to_0_indexed_ids"
+ET = "batchie.data.encode_treatment_arrays_to_0_indexed_ids"
+IS0 = "batchie.data.numpy_array_is_0_indexed_integers"
+
+
+def keys_distinct1(names, n):
+    k, k2 = z3.Int("k!kd"), z3.Int("k2!kd")
+    return z3.ForAll([k, k2], z3.Implies(z3.And(k >= 0, k < k2, k2 < n), z3.Select(names.data, k) != z3.Select(names.data, k2)),
+                     patterns=[z3.MultiPattern(z3.Select(names.data, k), z3.Select(names.data, k2))])
+
+
+def decodes1(enc, arr, mn, mi):
+    """every row's id decodes through the mapping (mn, mi) to that row's name"""
+    i_, k = z3.Int("i!dc"), z3.Int("k!dc")
+    n, m = arr.shape[0], mn.shape[0]
+    return z3.And(enc.shape[0] == n,
+                  z3.ForAll([i_], z3.Implies(z3.And(i_ >= 0, i_ < n),
+                                             z3.Exists([k], z3.And(k >= 0, k < m, z3.Select(mn.data, k) == z3.Select(arr.data, i_),
+                                                                   z3.Select(mi.data, k) == z3.Select(enc.data, i_)))),
+                            patterns=[z3.Select(enc.data, i_), z3.Select(arr.data, i_)]))
+
+
+def covers1(arr, mn):
+    i_, k = z3.Int("i!cv"), z3.Int("k!cv")
+    return z3.ForAll([i_], z3.Implies(z3.And(i_ >= 0, i_ < arr.shape[0]),
+                                      z3.Exists([k], z3.And(k >= 0, k < mn.shape[0], z3.Select(mn.data, k) == z3.Select(arr.data, i_)))),
+                     patterns=[z3.Select(arr.data, i_)])
+
+
+e1 = contract(E1)
+e1.trusted = True
+e1.note = "assumed (pandas drop_duplicates/sort_values/merge): dense faithful encoding of a 1-D name array; existing mapping followed verbatim"
+
+
+def _e1_apply(i, a, node, fr):
+    from pyvc.engine import PyRaise, ExcVal
+    ctx = i.ctx
+    arr = a.arr
+    n = arr.shape[0]
+    if a.existing_mapping is None:
+        m = ctx.fresh("n_names", Int)
+        uv = Arr((m,), ctx.fresh("uniq_names", z3.ArraySort(Int, arr.elem_sort)), arr.dtype)
+        ui = Arr((m,), ctx.fresh("uniq_ids", z3.ArraySort(Int, Int)), "int")
+        k, k2, j = z3.Int("k!e1"), z3.Int("k2!e1"), z3.Int("j!e1")
+        ctx.assume(z3.And(m >= 0, m <= n, z3.Implies(n > 0, m >= 1)))
+        for f in str_order_axioms():
+            ctx.assume(f)
+        ctx.assume(z3.ForAll([k, k2], z3.Implies(z3.And(k >= 0, k < k2, k2 < m), str_lt(z3.Select(uv.data, k), z3.Select(uv.data, k2))),
+                             patterns=[z3.MultiPattern(z3.Select(uv.data, k), z3.Select(uv.data, k2))]))
+        ctx.assume(z3.ForAll([k], z3.Implies(z3.And(k >= 0, k < m), z3.Select(ui.data, k) == k), patterns=[z3.Select(ui.data, k)]))
+        ctx.assume(keys_distinct1(uv, m))  # strictly sorted => pairwise distinct
+        ctx.assume(dense_ids(ui))  # ids are exactly 0..m-1
+        # every listed name occurs in the data
+        occ = z3.Function("occ!%d" % uv.ident, Int, Int)
+        ctx.assume(z3.ForAll([k], z3.Implies(z3.And(k >= 0, k < m), z3.And(occ(k) >= 0, occ(k) < n, z3.Select(arr.data, occ(k)) == z3.Select(uv.data, k))),
+                             patterns=[z3.Select(uv.data, k)]))
+    else:
+        uv, ui = a.existing_mapping
+        m = uv.shape[0]
+        i.ctx.prove("%s/call:encode_1d:mapping_keys_distinct@%s" % (i._cur_label, getattr(node, "lineno", "?")),
+                    z3.And(keys_distinct1(uv, m), ui.shape[0] == m), node, "call")
+        if ctx.decide(z3.Not(covers1(arr, uv))):
+            raise PyRaise(ExcVal("ValueError"), node)
+    enc = Arr((n,), ctx.fresh("enc_ids", z3.ArraySort(Int, Int)), "int")
+    pos = z3.Function("encpos!%d" % enc.ident, Int, Int)
+    j = z3.Int("j!e1b")
+    ctx.assume(z3.ForAll([j], z3.Implies(z3.And(j >= 0, j < n),
+                                         z3.And(pos(j) >= 0, pos(j) < m, z3.Select(uv.data, pos(j)) == z3.Select(arr.data, j),
+                                                z3.Select(enc.data, j) == z3.Select(ui.data, pos(j)))),
+                         patterns=[z3.Select(enc.data, j)]))
+    return (enc, uv, ui)
+
+
+e1.apply = _e1_apply
+
+z0 = contract(IS0)
+z0.trusted = True
+z0.note = "assumed: True iff the integer array's value set (ignoring -1) is exactly 0..m-1"
+
+
+def _z0_apply(i, a, node, fr):
+    arr = a.arr
+    if arr.elem_sort != Int:
+        return False
+    return dense_ids(arr)
+
+
+def dense_ids(arr):
+    """value set of arr without -1 is {0..m-1} for some m"""
+    k, v = z3.Int("k!di"), z3.Int("v!di")
+    n = arr.shape[0]
+    hi = z3.Int("hi!di")
+    occurs = lambda x: z3.Exists([k], z3.And(k >= 0, k < n, z3.Select(arr.data, k) == x))  # noqa
+    return z3.And(z3.ForAll([k], z3.Implies(z3.And(k >= 0, k < n), z3.Select(arr.data, k) >= -1)),
+                  z3.ForAll([k, v], z3.Implies(z3.And(k >= 0, k < n, v >= 0, v < z3.Select(arr.data, k)), occurs(v))))
+
+
+z0.apply = _z0_apply
+
+et = contract(ET)
+et.trusted = True
+et.note = "assumed (pandas): faithful dense encoding of (name, dose) pairs; control (-1) iff name == control or dose <= 0; mapping followed verbatim"
+
+
+def pair_decodes(enc, names, doses, mn, md, mi, upto=None):
+    i_, k = z3.Int("i!pd"), z3.Int("k!pd")
+    n, m = names.shape[0], mn.shape[0]
+    return z3.ForAll([i_], z3.Implies(z3.And(i_ >= 0, i_ < n),
+                                      z3.Exists([k], z3.And(k >= 0, k < m, z3.Select(mn.data, k) == z3.Select(names.data, i_),
+                                                            z3.Select(md.data, k) == z3.Select(doses.data, i_),
+                                                            z3.Select(mi.data, k) == z3.Select(enc.data, i_)))),
+                     patterns=[z3.Select(enc.data, i_)])
+
+
+def _et_apply(i, a, node, fr):
+    from pyvc.engine import PyRaise, ExcVal
+    ctx = i.ctx
+    names, doses = a.treatment_name_arr, a.treatment_dose_arr
+    ctl = a.control_treatment_name
+    ctl = _strc(ctl) if isinstance(ctl, str) else ctl
+    n = names.shape[0]
+    k, k2, j = z3.Int("k!et"), z3.Int("k2!et"), z3.Int("j!et")
+    if a.existing_mapping is None:
+        m = ctx.fresh("n_treatments", Int)
+        mn = Arr((m,), ctx.fresh("uniq_tnames", z3.ArraySort(Int, Str)), "str")
+        md = Arr((m,), ctx.fresh("uniq_tdoses", z3.ArraySort(Int, Real)), "float")
+        mi = Arr((m,), ctx.fresh("uniq_tids", z3.ArraySort(Int, Int)), "int")
+        nc = z3.Function("nc!%d" % mi.ident, Int, Int)  # number of non-control keys before position k
+        isc = lambda t: z3.Or(z3.Select(mn.data, t) == ctl, z3.Select(md.data, t) <= 0)  # noqa
+        ctx.assume(z3.And(m >= 0, m <= n, z3.Implies(n > 0, m >= 1)))
+        for f in str_order_axioms():
+            ctx.assume(f)
+        lt2 = lambda x, y: z3.Or(str_lt(z3.Select(mn.data, x), z3.Select(mn.data, y)),  # noqa
+                                 z3.And(z3.Select(mn.data, x) == z3.Select(mn.data, y), z3.Select(md.data, x) < z3.Select(md.data, y)))
+        ctx.assume(z3.ForAll([k, k2], z3.Implies(z3.And(k >= 0, k < k2, k2 < m), lt2(k, k2)),
+                             patterns=[z3.MultiPattern(z3.Select(mn.data, k), z3.Select(mn.data, k2))]))
+        ctx.assume(nc(0) == 0)
+        ctx.assume(z3.ForAll([k], z3.Implies(z3.And(k >= 0, k < m), z3.And(
+            nc(k + 1) == nc(k) + z3.If(isc(k), 0, 1),
+            z3.Select(mi.data, k) == z3.If(isc(k), -1, nc(k)))), patterns=[z3.Select(mi.data, k)]))
+        ctx.assume(pair_keys_distinct(mn, md))  # strictly sorted (name, dose) keys => pairwise distinct
+        ctx.assume(dense_ids(mi))  # non-control ids are exactly 0..nc(m)-1 (part of the assumed encoder contract)
+        occ = z3.Function("tocc!%d" % mi.ident, Int, Int)
+        ctx.assume(z3.ForAll([k], z3.Implies(z3.And(k >= 0, k < m), z3.And(occ(k) >= 0, occ(k) < n,
+                                                                          z3.Select(names.data, occ(k)) == z3.Select(mn.data, k),
+                                                                          z3.Select(doses.data, occ(k)) == z3.Select(md.data, k))),
+                             patterns=[z3.Select(mn.data, k)]))
+    else:
+        mn, md, mi = a.existing_mapping
+        m = mn.shape[0]
+        distinct = z3.ForAll([k, k2], z3.Implies(z3.And(k >= 0, k < k2, k2 < m),
+                                                 z3.Or(z3.Select(mn.data, k) != z3.Select(mn.data, k2), z3.Select(md.data, k) != z3.Select(md.data, k2))),
+                             patterns=[z3.MultiPattern(z3.Select(mn.data, k), z3.Select(mn.data, k2))])
+        i.ctx.prove("%s/call:encode_treatment:mapping_keys_distinct@%s" % (i._cur_label, getattr(node, "lineno", "?")),
+                    z3.And(distinct, md.shape[0] == m, mi.shape[0] == m), node, "call")
+        covered = z3.ForAll([j], z3.Implies(z3.And(j >= 0, j < n), z3.Exists([k], z3.And(
+            k >= 0, k < m, z3.Select(mn.data, k) == z3.Select(names.data, j), z3.Select(md.data, k) == z3.Select(doses.data, j)))),
+            patterns=[z3.Select(names.data, j)])
+        if ctx.decide(z3.Not(covered)):
+            raise PyRaise(ExcVal("ValueError"), node)
+    enc = Arr((n,), ctx.fresh("enc_tids", z3.ArraySort(Int, Int)), "int")
+    pos = z3.Function("tencpos!%d" % enc.ident, Int, Int)
+    ctx.assume(z3.ForAll([j], z3.Implies(z3.And(j >= 0, j < n), z3.And(
+        pos(j) >= 0, pos(j) < m, z3.Select(mn.data, pos(j)) == z3.Select(names.data, j),
+        z3.Select(md.data, pos(j)) == z3.Select(doses.data, j), z3.Select(enc.data, j) == z3.Select(mi.data, pos(j)))),
+        patterns=[z3.Select(enc.data, j)]))
+    return (enc, mn, md, mi)
+
+
+et.apply = _et_apply
+
+
+# ====================================================================================================
+# Screen.__init__ : verified against the contract below (uses the assumed encoder contracts above).
+# ====================================================================================================
+def T_init_params(arity, obs="both", mapping=False):
+    ps = [("self", TObj(SCREEN)),
+          ("treatment_names", TArr(Str, 2, dims=(None, arity))), ("treatment_doses", TArr(Real, 2, dims=(None, arity))),
+          ("sample_names", TArr(Str)), ("plate_names", TArr(Str)),
+          ("observations", TArr(FS()) if obs in ("both", "obs") else TNone),
+          ("observation_mask", TArr(Bool) if obs == "both" else TNone),
+          ("control_treatment_name", TStr),
+          ("treatment_mapping", TTuple(TArr(Str), TArr(Real), TArr(Int)) if mapping else TNone),
+          ("sample_mapping", TTuple(TArr(Str), TArr(Int)) if mapping else TNone)]
+    return ps
+
+
+si.trusted = False
+si.note = ""
+si.params = T_init_params(2)
+si.variants = [("arity2_obs_mask", T_init_params(2)), ("arity2_obs_only", T_init_params(2, "obs")),
+               ("arity2_no_obs", T_init_params(2, "none")), ("arity2_mappings", T_init_params(2, "both", True)),
+               ("arity1_obs_mask", T_init_params(1)), ("arity3_obs_mask", T_init_params(3))]
+
+
+def _mask_len_ok(a):
+    return [("mask_length", a.observation_mask.shape[0] == a.sample_names.shape[0])] if a.observation_mask is not None else []
+
+
+def _mapping_req(a):
+    out = []
+    if a.sample_mapping is not None:
+        mn, mi = a.sample_mapping
+        out += [("sample_mapping_keys_distinct", keys_distinct1(mn, mn.shape[0])), ("sample_mapping_lens", mi.shape[0] == mn.shape[0])]
+    if a.treatment_mapping is not None:
+        mn, md, mi = a.treatment_mapping
+        m = mn.shape[0]
+        out += [("treatment_mapping_lens", z3.And(md.shape[0] == m, mi.shape[0] == m)),
+                ("treatment_mapping_keys_distinct", pair_keys_distinct(mn, md))]
+    return out
+
+
+si._requires = []
+si.requires(lambda a: _mask_len_ok(a) + _mapping_req(a))
+
+
+def _mixed_plate(a):
+    if a.observation_mask is None:
+        return z3.BoolVal(False)
+    n = a.sample_names.shape[0]
+    r, r2 = z3.Int("r!mx"), z3.Int("r2!mx")
+    pn, mk = a.plate_names.data, a.observation_mask.data
+    return z3.Exists([r, r2], z3.And(r >= 0, r < n, r2 >= 0, r2 < n, z3.Select(pn, r) == z3.Select(pn, r2), z3.Select(mk, r) != z3.Select(mk, r2)))
+
+
+def _stack(a):
+    """(names, doses) as the constructor concatenates them column after column"""
+    return a
+
+
+def _init_raises(a):
+    n = a.sample_names.shape[0]
+    conds = [a.treatment_names.shape[0] != n, a.treatment_doses.shape[0] != n, a.plate_names.shape[0] != n]
+    if a.observations is not None:
+        conds.append(a.observations.shape[0] != n)
+    conds.append(_mixed_plate(a))
+    if a.treatment_mapping is not None:
+        conds.append(z3.Not(dense_ids(a.treatment_mapping[2])))
+        mn, md, mi = a.treatment_mapping
+        r, c, k = z3.Int("r!ir"), z3.Int("c!ir"), z3.Int("k!ir")
+        ar = a.treatment_names.shape[1]
+        conds.append(z3.Exists([r, c], z3.And(r >= 0, r < n, c >= 0, c < ar, z3.Not(z3.Exists([k], z3.And(
+            k >= 0, k < mn.shape[0], z3.Select(mn.data, k) == a.treatment_names.at(r, c), z3.Select(md.data, k) == a.treatment_doses.at(r, c)))))))
+    if a.sample_mapping is not None:
+        conds.append(z3.Not(dense_ids(a.sample_mapping[1])))
+        conds.append(z3.Not(covers1(a.sample_names, a.sample_mapping[0])))
+    return z3.Or(*conds)
+
+
+si._raises = []
+si.raises("ValueError", _init_raises)
+
+
+def treatment_decodes(o, tn, td):
+    """every (row, column) id decodes through the screen's treatment mapping to that cell's (name, dose)"""
+    r, k = z3.Int("r!td"), z3.Int("k!td")
+    mn, md, mi = G(o, "_treatment_mapping")
+    tid = G(o, "_treatment_ids")
+    n = tn.shape[0]
+    ar = tn.shape[1]
+    out = []
+    if not isinstance(ar, int):
+        c = z3.Int("c!td")
+        return z3.ForAll([r, c], z3.Implies(z3.And(r >= 0, r < n, c >= 0, c < ar), z3.Exists([k], z3.And(
+            k >= 0, k < mn.shape[0], z3.Select(mn.data, k) == tn.at(r, c), z3.Select(md.data, k) == td.at(r, c),
+            z3.Select(mi.data, k) == tid.at(r, c)))), patterns=[tid.at(r, c), tn.at(r, c)])
+    for c in range(ar):
+        out.append(z3.ForAll([r], z3.Implies(z3.And(r >= 0, r < n), z3.Exists([k], z3.And(
+            k >= 0, k < mn.shape[0], z3.Select(mn.data, k) == tn.at(r, c), z3.Select(md.data, k) == td.at(r, c),
+            z3.Select(mi.data, k) == tid.at(r, c)))), patterns=[tid.at(r, c), tn.at(r, c)]))
+    return z3.And(*out)
+
+
+def pair_keys_distinct(mn, md):
+    k, k2 = z3.Int("k!pk"), z3.Int("k2!pk")
+    m = mn.shape[0]
+    return z3.ForAll([k, k2], z3.Implies(z3.And(k >= 0, k < k2, k2 < m),
+                                         z3.Or(z3.Select(mn.data, k) != z3.Select(mn.data, k2), z3.Select(md.data, k) != z3.Select(md.data, k2))),
+                     patterns=[z3.MultiPattern(z3.Select(mn.data, k), z3.Select(mn.data, k2))])
+
+
+def mapping_wf(o):
+    """both id mappings list pairwise distinct keys, have consistent lengths and dense ids"""
+    smn, smi = G(o, "_sample_mapping")
+    tmn, tmd, tmi = G(o, "_treatment_mapping")
+    return [smi.shape[0] == smn.shape[0], keys_distinct1(smn, smn.shape[0]), dense_ids(smi),
+            tmd.shape[0] == tmn.shape[0], tmi.shape[0] == tmn.shape[0], pair_keys_distinct(tmn, tmd), dense_ids(tmi)]
+
+
+def screen_wf(s):
+    """class invariant of Screen (established by the verified constructor contract)"""
+    return (screen_shape_wf(s) + plate_consistency(s) + mapping_wf(s) + [
+        decodes1(G(s, "_sample_ids"), G(s, "_sample_names"), *G(s, "_sample_mapping")),
+        decodes1(G(s, "_plate_ids"), G(s, "plate_names"), *G(s, "_plate_mapping")),
+        treatment_decodes(s, G(s, "_treatment_names"), G(s, "_treatment_doses"))])
+
+
+def _init_post(a, ret, st):
+    o = a.self
+    n = a.sample_names.shape[0]
+    k = z3.Int("k!ip")
+    out = [("shape", z3.And(*screen_shape_wf(o))),
+           ("stores", bool_all([o.fields.get("_sample_names") is a.sample_names, o.fields.get("plate_names") is a.plate_names,
+                                o.fields.get("_treatment_names") is a.treatment_names, o.fields.get("_treatment_doses") is a.treatment_doses])),
+           ("control_name", G(o, "control_treatment_name") == a.control_treatment_name)]
+    obs, msk = G(o, "_observations"), G(o, "_observation_mask")
+    if a.observations is not None:
+        out.append(("stores_observations", bool_all([obs is a.observations])))
+        if a.observation_mask is not None:
+            out.append(("stores_mask", bool_all([msk is a.observation_mask])))
+        else:
+            out.append(("default_all_observed", z3.ForAll([k], z3.Implies(z3.And(k >= 0, k < n), z3.Select(msk.data, k)), patterns=[z3.Select(msk.data, k)])))
+    else:
+        from pyvc.lib.arrays import const_of
+        out.append(("default_unobserved", z3.ForAll([k], z3.Implies(z3.And(k >= 0, k < n), z3.And(
+            z3.Not(z3.Select(msk.data, k)), z3.Select(obs.data, k) == const_of(FS(), 0))), patterns=[z3.Select(msk.data, k)])))
+    out.append(("plates", z3.And(*plate_consistency(o))))
+    smn, smi = G(o, "_sample_mapping")
+    out.append(("sample_ids_decode", decodes1(G(o, "_sample_ids"), a.sample_names, smn, smi)))
+    pmn, pmi = G(o, "_plate_mapping")
+    out.append(("plate_ids_decode", decodes1(G(o, "_plate_ids"), a.plate_names, pmn, pmi)))
+    out.append(("treatment_ids_decode", treatment_decodes(o, a.treatment_names, a.treatment_doses)))
+    out += [("mappings_wf", z3.And(*mapping_wf(o)))]
+    if a.treatment_mapping is not None:
+        out.append(("treatment_mapping_verbatim", bool_all([x is y for x, y in zip(G(o, "_treatment_mapping"), a.treatment_mapping)])))
+    if a.sample_mapping is not None:
+        out.append(("sample_mapping_verbatim", bool_all([x is y for x, y in zip(G(o, "_sample_mapping"), a.sample_mapping)])))
+    return out
+
+
+def bool_(b):
+    return z3.BoolVal(bool(b))
+
+
+def bool_all(xs):
+    return z3.BoolVal(all(bool(x) for x in xs))
+
+
+si._ensures = []
+si.ensures("screen", _init_post)
+
+
+def _plates_uniform_upto(s, upto):
+    r, r2, k = z3.Int("r!pu"), z3.Int("r2!pu"), z3.Int("k!pu")
+    n = s.sample_names.shape[0]
+    pn, mk, u = s.plate_names.data, s.observation_mask.data, s.plate_names_unique.data
+    return z3.ForAll([k, r, r2], z3.Implies(z3.And(k >= 0, k < upto, r >= 0, r < n, r2 >= 0, r2 < n,
+                                                  z3.Select(pn, r) == z3.Select(u, k), z3.Select(pn, r2) == z3.Select(u, k)),
+                                            z3.Select(mk, r) == z3.Select(mk, r2)))
+
+
+si.loop("for#0", invariant=lambda s: [("uniform_so_far", _plates_uniform_upto(s, s.it))])
+
+
+def _screen_init_apply2(i, a, node, fr):
+    """Use of the (verified) constructor contract at a call site: preconditions become obligations, the raise condition
+    and every ensures clause are exactly the ones proved for the body; pass-through columns keep their identity."""
+    from pyvc.engine import PyRaise, ExcVal
+    from pyvc.spec import named
+    from pyvc.engine import _aslist
+    ctx = i.ctx
+    for x in (a.treatment_names, a.treatment_doses, a.sample_names, a.plate_names):
+        if not isinstance(x, Arr):
+            raise i_unsupported("Screen(...) with non-array argument", node)
+    if a.treatment_names.ndim != 2 or a.treatment_doses.ndim != 2:
+        raise PyRaise(ExcVal("ValueError"), node)
+    if a.observations is None and a.observation_mask is not None:
+        raise PyRaise(ExcVal("ValueError"), node)
+    ln = getattr(node, "lineno", "?")
+    for rq in si._requires:
+        for nm, f in named(_aslist(rq(a)), "pre"):
+            ctx.prove("%s/call:Screen.__init__:%s@%s" % (i._cur_label, nm, ln), f, node, "call")
+    if ctx.decide(z3.Or(_init_raises(a), to_int(a.treatment_names.shape[1]) != to_int(a.treatment_doses.shape[1]))):
+        raise PyRaise(ExcVal("ValueError"), node)
+    o = a.self
+    f = o.fields
+    n = a.sample_names.shape[0]
+    f["control_treatment_name"] = a.control_treatment_name if not isinstance(a.control_treatment_name, str) else _strc(a.control_treatment_name)
+    f["_sample_names"], f["plate_names"] = a.sample_names, a.plate_names
+    f["_treatment_names"], f["_treatment_doses"] = a.treatment_names, a.treatment_doses
+    fresh = screen_fields()
+    if a.observations is not None:
+        f["_observations"] = a.observations
+        f["_observation_mask"] = a.observation_mask if a.observation_mask is not None else fresh["_observation_mask"].fresh(ctx, "new.mask")
+    else:
+        f["_observations"] = fresh["_observations"].fresh(ctx, "new.obs")
+        f["_observation_mask"] = fresh["_observation_mask"].fresh(ctx, "new.mask")
+    for nm in ("_treatment_ids", "_sample_ids", "_plate_ids", "_sample_mapping", "_plate_mapping", "_treatment_mapping"):
+        f[nm] = fresh[nm].fresh(ctx, "new." + nm)
+    if a.treatment_mapping is not None:
+        f["_treatment_mapping"] = a.treatment_mapping
+    if a.sample_mapping is not None:
+        f["_sample_mapping"] = a.sample_mapping
+    for k_, v_ in f.items():
+        for x in (v_ if isinstance(v_, tuple) else (v_,)):
+            if hasattr(x, "origin") and x.origin == "unknown" and k_ in ("_treatment_ids", "_sample_ids", "_plate_ids", "_plate_mapping"):
+                x.origin = "fresh"
+    ns = NS(dict(object.__getattribute__(a, "_d"), **{"control_treatment_name": f["control_treatment_name"]}), "argument")
+    for nm, g in _init_post(ns, None, i):
+        ctx.assume(g)
+    return None
+
+
+si.apply = _screen_init_apply2
